@@ -134,29 +134,9 @@ def classify(fail):
     trees = fail.get('trees', [])
     if fail['what'] == 'values-differ':
         vals = set(fail.get('values', []))
-        # D22: the parent axis applied to the document node panics (parent_node().unwrap()); `..` answers the
-        # empty node-set there, and another evaluation order (// versus descendant-or-self::node()) may meet
-        # a different error first.  Narrow: exactly two outcomes, one of them `panic`, and the spelling that
-        # panics has an explicit parent:: step.
-        pv = list(zip(trees, [fail.get('value'), fail.get('value2')]))
-        if 'panic' in vals and len(vals) == 2:
-            for t, v in pv:
-                if v == 'panic' and any(s[0] == 'step' and s[1] == ('full', 'parent') for s in steps_of(t)):
-                    return 'D22'
-        # D29: a predicate that is a non-integral number literal
-        def nonint(t):
-            for x in subtrees(t):
-                preds = []
-                if x[0] == 'filter': preds = x[2]
-                for p in preds:
-                    if p[0] == 'num' and not is_integral(p[1]): return True
-            for s in steps_of(t):
-                if s[0] == 'step':
-                    for p in s[3]:
-                        if p[0] == 'num' and not is_integral(p[1]): return True
-            return False
-        if any(nonint(t) for t in trees):
-            return 'D29'
+        # (the evaluator defects D22 and D29 used to be classified here; both are repaired on /repo main,
+        #  so a difference of values between equivalent spellings is a violation again)
+        pass
     if fail['what'] in ('rejected', 'other-tree'):
         # residue of the D28 repair: take_except compares case-insensitively
         for t in trees:
@@ -245,7 +225,10 @@ def directed_cases():
     # numeric predicates and position()
     for n in ['1', '2', '3', '0', '1.0', '1.5', '2.5', '007']:
         for base in [P('r', 'a'), ('path', ('abs', '//'), nm('a'), []), ('path', ('abs', '//'), nm('b'), []),
-                     ('path', ('rel',), nm('r'), [('/', nm('c')), ('//', nm('b'))])]:
+                     ('path', ('rel',), nm('r'), [('/', nm('c')), ('//', nm('b'))]),
+                     # a mid-path `//` whose step matches under SEVERAL parents: `//T[n]` is per parent
+                     ('path', ('rel',), nm('r'), [('//', nm('b'))]), ('path', ('rel',), nm('r'), [('//', nm('a'))]),
+                     ('path', ('rel',), nm('r'), [('/', nm('a')), ('//', ('step', ('omit',), ('type', 'node'), []))])]:
             last = base[3][-1][1] if base[3] else base[2]
             ls = ('step', last[1], last[2], [('bin', '=', xpgen.POSITION, ('num', n))])
             t = ('path', base[1], base[2], base[3][:-1] + [(base[3][-1][0], ls)]) if base[3] else ('path', base[1], ls, [])
@@ -392,8 +375,6 @@ def search(run, n_random, directed=True, with_model=True):
         run.sample({'kind': cases[sp['case']]['kind'], 'spelling': sp['s'], 'value': sp['val'], 'via': sp['src']})
 
 KNOWN_TEXT = {
-    'D22': 'parent::node() on the document node panics while .. answers the empty node-set (D22, evaluator)',
-    'D29': 'a non-integral numeric predicate [n] is truncated (`v as usize`) while position()=n is false (D29, evaluator)',
     'C08-fname-case': 'a function name that equals a NodeType up to letter case (Text(), NODE()) is rejected by the parser: take_except compares case-insensitively',
 }
 
